@@ -158,6 +158,9 @@ pub fn worker_runs(
     let mut sum = WorkerSummary::default();
     let engine = format!("e1-{:?}", plan.class);
     for i in from..to {
+        if sum.violations.len() >= 4 {
+            break;
+        }
         let seed = run_seed(global_seed, &engine, i);
         let (history, sw) = generate::gen_history(seed, plan.class, plan.max_steps);
         let chaos = plan.chaos_every > 0 && i % plan.chaos_every == plan.chaos_every - 1;
